@@ -1,8 +1,9 @@
 (* Props.C12 — writer options change presentation only, never content (1.2 <-> 2.0 included).
    Statements only; the proofs are in Proofs/OrderTableProofs.v (the value/description order
    tables), Proofs/WriteOptionsProofs.v (write factors into a header part that sees only
-   `version` and `wrap` and a data part) and Proofs/WriteHeaderProofs.v (the item round trip
-   of C03, used for the 1.2 <-> 2.0 statement).
+   `version` and `wrap` and a data part), Proofs/WriteHeaderProofs.v (the item round trip
+   of C03, used for the 1.2 <-> 2.0 statement) and Proofs/FilePresentation.v (the two texts
+   read back, whole file).
 
    Reading.  R (W o1 x) ~ R (W o2 x) is split along the two halves of the file.
    HEADER.  write (Model/Writer.v) = write_sections (wo_version o) (wo_wrap o) (col_fmt o 0) m
@@ -42,11 +43,26 @@
    C12_state_independent_of_presentation (every oracle, every in-memory file, every pair of
    option records), C12_version_swap_meaning (every conformant item, arbitrary widths).
 
-   NOT PROVED HERE (correspondence runs of the harness only): equality of the DATA section
-   read back under two configurations "whose numeric formats have equal precision" — that is
-   a statement about the oracle fmtv (CPython's % formatting) composed with the data reader;
-   VERS and WRAP themselves differ by construction (excluded by the property);
-   the composition header text -> find_sections -> parse_body for a whole file.
+   FILE LEVEL (second half of this file, proofs in Proofs/FilePresentation.v on top of the
+   whole-file round trip Proofs/FileRoundTrip*.v): the two texts are READ BACK and compared.
+   C12_file_presentation_independent — same version, same wrap, same numeric format per
+   existing column, every other option free (len_numeric_field, lhs_spacer, spacer, data_width,
+   header_width, data_section_header, mnemonics_header; fmt / column_fmt as long as col_fmt
+   agrees): both reads succeed and return the SAME four header sections, ~Other text, custom
+   sections and data.  C12_file_wrap_independent — wrap on against wrap off as well: everything
+   equal but the WRAP item of ~Version.  C12_file_options_independent — any two option records
+   with the same format per column (version 1.2 / 2.0 / None and wrap on / off / None free):
+   equal ~Well, ~Curves, ~Parameter metadata, ~Other, data (NULL named at most once).
+   Hypotheses: the decidable domain predicate file_hypsb of the file round trip (Props/C03.v
+   C03_file_hypsb_ok) for each of the two writes.  Non-vacuity: C12_ex_file_domain ...
+   C12_ex_file_computed (one object, four option records).
+
+   NOT PROVED HERE: "numeric formats of equal precision" is taken as EQUAL format strings per
+   column — that two different format strings print the same digits is a fact about the
+   oracle fmtv (CPython's % formatting), left to the correspondence runs; VERS and WRAP
+   themselves differ by construction (excluded by the property); that the ~Version items
+   other than VERS and WRAP agree is proved when wrap differs (C12_file_wrap_independent), not
+   when version differs (each text's ~Version is described by header_read_back).
 
    ORACLES: all theorems hold for arbitrary fmtv, fmt_diff, fmt_pi, fstr, fzero, numeq. *)
 From Coq Require Import List NArith ZArith Bool String.
@@ -235,3 +251,348 @@ Print Assumptions C12_state_independent_of_presentation.
 Print Assumptions C12_written_lines.
 Print Assumptions C12_version_swap_meaning.
 Print Assumptions C12_swap_on_disk.
+
+(* ====================================================================================== *)
+(* FILE LEVEL (appended).  Proofs in Proofs/FilePresentation.v, on top of the whole-file    *)
+(* round trip Proofs/FileRoundTrip*.v (read_written_file_checked, Props/C03.v, C01.v).      *)
+(* ====================================================================================== *)
+(* R (W o1 m) versus R (W o2 m) for one object m in memory, READ BACK, whole file.
+
+     C12_file_presentation_independent
+        o1, o2 agree on `version`, on `wrap` and on the numeric format of every column that
+        exists (col_fmt: column_fmt[j], else fmt) and are otherwise arbitrary: len_numeric_field,
+        lhs_spacer, spacer, data_width, header_width, data_section_header, mnemonics_header —
+        and fmt / column_fmt themselves as long as each existing column gets the same format.
+        Both writes succeed, the written file is in the domain of the file round trip for each
+        of the two option records (file_hypsb, the executable predicate of Props/C03.v
+        C03_file_hypsb_ok: conformant items, exactly one VERS, DLM SPACE or absent, white-space
+        spacers, numeric tokens, separated fields, a "~A..." data section header).  Then both
+        texts are read without error and the two results are EQUAL, section by section:
+        ~Version, ~Well, ~Curves, ~Parameter (the items with their session mnemonics, not only
+        their metadata), ~Other, no custom sections, the data — so neither the number of
+        curves, nor their order, nor the number of rows, nor any cell changes; both are the
+        read-back of the same written form hs (header_read_back: C03's expected items), the
+        data are data_result of the token matrix (C01_file_cell_num / _nan say what each cell
+        is); and the object left in memory is the same.  No hypothesis on the number of NULL
+        items: the reader looks NULL up in the SAME parsed ~Well items for both texts.
+     C12_file_wrap_independent
+        as above but wrap=b1 in o1 and wrap=b2 in o2 (wrap on/off, both given).  The written
+        ~Version sections now differ: the WRAP item (value YES/NO, its description) and with it
+        the column widths of every ~Version line.  Read back: ~Well, ~Curves, ~Parameter,
+        ~Other, the data are equal (as sections, as above); the ~Version items are pairwise
+        equal in metadata except the item whose mnemonic is WRAP (C12_read_wrap_rel_unfold);
+        in memory the two objects differ in that item only (C12_wrap_rel_unfold,
+        C12_same_but_version_unfold).
+     C12_file_options_independent
+        ANY two option records that give every existing column the same numeric format:
+        `version` (1.2, 2.0 or None) and `wrap` (on, off or None) free as well.  Read back:
+        equal metadata of the ~Well, ~Curves, ~Parameter items, equal ~Other, no custom
+        sections, equal data.  Needs NULL named at most once in ~Well (as
+        C03_file_version_independent: the two ~Well sections are parsed from different lines —
+        1.2 against 2.0 layout — and only their metadata are known to agree).  The ~Version
+        section, where VERS and WRAP differ by construction, is described for each text by
+        header_read_back; that its OTHER items agree is proved for wrap (previous theorem) and
+        not for version.
+   What is still outside Coq for C12: "numeric formats of equal precision" is taken as EQUAL
+   formats per column (two different format strings that print the same digits are an oracle
+   fact about CPython's %); wrap=None against wrap given and differing version are covered by
+   C12_file_options_independent without the statement about the other ~Version items. *)
+Require Import Sections ItemsBindProofs WriteDataProofs WriteDataTextProofs
+  FileRoundTripText FileRoundTripFind FileRoundTripHeader FileRoundTripData FileRoundTrip FileRoundTripMain
+  FileRoundTripCheck FileRoundTripVersion FilePresentation.
+From Coq Require Import Lia.
+
+Theorem C12_same_content_options_unfold : forall n o1 o2,
+  same_content_options n o1 o2 <->
+  (wo_version o1 = wo_version o2 /\ wo_wrap o1 = wo_wrap o2 /\
+   forall j, (j < n)%nat -> col_fmt o1 j = col_fmt o2 j).
+Proof. intros. reflexivity. Qed.
+
+Theorem C12_same_formats_unfold : forall n o1 o2,
+  same_formats n o1 o2 <-> forall j, (j < n)%nat -> col_fmt o1 j = col_fmt o2 j.
+Proof. intros. reflexivity. Qed.
+
+Theorem C12_wrap_rel_unfold : forall a b,
+  wrap_rel a b <->
+  (a = b \/
+   (i_orig a = s2l "WRAP" /\ i_orig b = s2l "WRAP" /\ i_sess a = i_sess b /\ i_unit a = i_unit b /\
+    exists r, i_sess a = s2l "WRAP" ++ r)).
+Proof. intros. reflexivity. Qed.
+
+Theorem C12_read_wrap_rel_unfold : forall c a b,
+  read_wrap_rel c a b <->
+  (meta a = meta b \/
+   (i_orig a = apply_case c (s2l "WRAP") /\ i_orig b = apply_case c (s2l "WRAP") /\ i_unit a = i_unit b)).
+Proof. intros. reflexivity. Qed.
+
+Theorem C12_same_but_version_unfold : forall l l',
+  same_but_version l l' <->
+  (l_well l = l_well l' /\ l_curves l = l_curves l' /\ l_params l = l_params l' /\ l_other l = l_other l' /\
+   l_custom l = l_custom l' /\ l_data l = l_data l' /\ l_engine_numpy l = l_engine_numpy l' /\
+   s_transforms (l_version l) = s_transforms (l_version l')).
+Proof. intros. reflexivity. Qed.
+
+Theorem C12_file_presentation_independent :
+  forall fmtv fmt_diff fmt_pi fstr fzero numeq fhex ro o1 o2 m text1 m1 text2 m2 hs nt,
+  same_content_options (List.length (s_items (l_curves (hs_las hs)))) o1 o2 ->
+  write fmtv fmt_diff fmt_pi fstr fzero numeq o1 m = WOk text1 m1 ->
+  write fmtv fmt_diff fmt_pi fstr fzero numeq o2 m = WOk text2 m2 ->
+  write_sections fmtv fmt_diff fstr fzero numeq (wo_version o1) (wo_wrap o1) (col_fmt o1 0%nat) m = Some hs ->
+  las_null_text fstr (hs_las hs) = Some nt ->
+  file_hypsb fmtv fmt_pi fstr fhex ro o1 hs nt = true ->
+  file_hypsb fmtv fmt_pi fstr fhex ro o2 hs nt = true ->
+  o_ignore_data ro = false ->
+  exists l1 l2 pn,
+    read fhex fstr numeq ro text1 = ROk l1 /\ read fhex fstr numeq ro text2 = ROk l2 /\
+    header_read_back fstr ro hs l1 /\ header_read_back fstr ro hs l2 /\ null_read fstr ro hs pn /\
+    l_data l1 = data_result fhex numeq ro pn (List.length (s_items (l_curves (hs_las hs))))
+                  (tok_matrix fmtv o1 nt (las_rows (hs_las hs))) /\
+    l_version l1 = l_version l2 /\ l_well l1 = l_well l2 /\ l_curves l1 = l_curves l2 /\
+    l_params l1 = l_params l2 /\ l_other l1 = l_other l2 /\ l_custom l1 = l_custom l2 /\
+    l_data l1 = l_data l2 /\
+    m1 = m2.
+Proof. exact file_presentation_independent. Qed.
+
+Theorem C12_file_wrap_independent :
+  forall fmtv fmt_diff fmt_pi fstr fzero numeq fhex ro o1 o2 b1 b2 m text1 m1 text2 m2 hs1 hs2 nt,
+  wo_version o1 = wo_version o2 -> wo_wrap o1 = Some b1 -> wo_wrap o2 = Some b2 ->
+  same_formats (List.length (s_items (l_curves (hs_las hs1)))) o1 o2 ->
+  write fmtv fmt_diff fmt_pi fstr fzero numeq o1 m = WOk text1 m1 ->
+  write fmtv fmt_diff fmt_pi fstr fzero numeq o2 m = WOk text2 m2 ->
+  write_sections fmtv fmt_diff fstr fzero numeq (wo_version o1) (wo_wrap o1) (col_fmt o1 0%nat) m = Some hs1 ->
+  write_sections fmtv fmt_diff fstr fzero numeq (wo_version o2) (wo_wrap o2) (col_fmt o2 0%nat) m = Some hs2 ->
+  las_null_text fstr (hs_las hs1) = Some nt ->
+  file_hypsb fmtv fmt_pi fstr fhex ro o1 hs1 nt = true ->
+  file_hypsb fmtv fmt_pi fstr fhex ro o2 hs2 nt = true ->
+  o_ignore_data ro = false ->
+  exists l1 l2 pn,
+    read fhex fstr numeq ro text1 = ROk l1 /\ read fhex fstr numeq ro text2 = ROk l2 /\
+    header_read_back fstr ro hs1 l1 /\ header_read_back fstr ro hs2 l2 /\ null_read fstr ro hs1 pn /\
+    l_data l1 = data_result fhex numeq ro pn (List.length (s_items (l_curves (hs_las hs1))))
+                  (tok_matrix fmtv o1 nt (las_rows (hs_las hs1))) /\
+    hs_wrap hs1 = b1 /\ hs_wrap hs2 = b2 /\ hs_version hs1 = hs_version hs2 /\
+    same_but_version (hs_las hs1) (hs_las hs2) /\
+    Forall2 wrap_rel (hs_vers_items hs1) (hs_vers_items hs2) /\
+    Forall2 (read_wrap_rel (o_mcase ro)) (s_items (l_version l1)) (s_items (l_version l2)) /\
+    s_transforms (l_version l1) = s_transforms (l_version l2) /\
+    l_well l1 = l_well l2 /\ l_curves l1 = l_curves l2 /\ l_params l1 = l_params l2 /\
+    l_other l1 = l_other l2 /\ l_custom l1 = l_custom l2 /\ l_data l1 = l_data l2 /\
+    same_but_version (m_las m1) (m_las m2) /\ m_index_initial m1 = m_index_initial m2 /\
+    Forall2 wrap_rel (s_items (l_version (m_las m1))) (s_items (l_version (m_las m2))).
+Proof. exact file_wrap_independent. Qed.
+
+Theorem C12_file_options_independent :
+  forall fmtv fmt_diff fmt_pi fstr fzero numeq fhex ro o1 o2 m text1 m1 text2 m2 hs1 hs2 nt,
+  same_formats (List.length (s_items (l_curves (hs_las hs1)))) o1 o2 ->
+  write fmtv fmt_diff fmt_pi fstr fzero numeq o1 m = WOk text1 m1 ->
+  write fmtv fmt_diff fmt_pi fstr fzero numeq o2 m = WOk text2 m2 ->
+  write_sections fmtv fmt_diff fstr fzero numeq (wo_version o1) (wo_wrap o1) (col_fmt o1 0%nat) m = Some hs1 ->
+  write_sections fmtv fmt_diff fstr fzero numeq (wo_version o2) (wo_wrap o2) (col_fmt o2 0%nat) m = Some hs2 ->
+  las_null_text fstr (hs_las hs1) = Some nt ->
+  file_hypsb fmtv fmt_pi fstr fhex ro o1 hs1 nt = true ->
+  file_hypsb fmtv fmt_pi fstr fhex ro o2 hs2 nt = true ->
+  (List.length (filter (in_class (o_mcase ro) (s2l "NULL")) (s_items (l_well (hs_las hs1)))) <= 1)%nat ->
+  o_ignore_data ro = false ->
+  exists l1 l2 pn,
+    read fhex fstr numeq ro text1 = ROk l1 /\ read fhex fstr numeq ro text2 = ROk l2 /\
+    header_read_back fstr ro hs1 l1 /\ header_read_back fstr ro hs2 l2 /\ null_read fstr ro hs1 pn /\
+    l_data l1 = data_result fhex numeq ro pn (List.length (s_items (l_curves (hs_las hs1))))
+                  (tok_matrix fmtv o1 nt (las_rows (hs_las hs1))) /\
+    same_but_version (hs_las hs1) (hs_las hs2) /\
+    map meta (s_items (l_well l1)) = map meta (s_items (l_well l2)) /\
+    map meta (s_items (l_curves l1)) = map meta (s_items (l_curves l2)) /\
+    map meta (s_items (l_params l1)) = map meta (s_items (l_params l2)) /\
+    s_transforms (l_well l1) = s_transforms (l_well l2) /\ s_transforms (l_curves l1) = s_transforms (l_curves l2) /\
+    s_transforms (l_params l1) = s_transforms (l_params l2) /\
+    l_other l1 = l_other l2 /\ l_custom l1 = l_custom l2 /\ l_data l1 = l_data l2 /\
+    same_but_version (m_las m1) (m_las m2) /\ m_index_initial m1 = m_index_initial m2.
+Proof. exact file_options_independent. Qed.
+
+(* the file left in memory depends on `version` and `wrap` through its ~Version section only *)
+Theorem C12_written_state_but_version :
+  forall fmtv fmt_diff fstr fzero numeq v1 v2 w1 w2 ifmt m hs1 hs2,
+  write_sections fmtv fmt_diff fstr fzero numeq v1 w1 ifmt m = Some hs1 ->
+  write_sections fmtv fmt_diff fstr fzero numeq v2 w2 ifmt m = Some hs2 ->
+  same_but_version (hs_las hs1) (hs_las hs2).
+Proof. exact write_sections_las_free. Qed.
+
+(* ---- non-vacuity: one object, three really different option records -------------------------- *)
+(* stand-ins for the oracles (the theorems quantify over them): a sample is printed as its own
+   token, str(float) is the identity on the texts used, float equality is text equality *)
+Definition fp_fmtv (f t : list N) : list N := t.
+Definition fp_fmt_diff (f b a : list N) : list N := s2l "1.0".
+Definition fp_fmt_pi (f : list N) : list N := s2l "3.14159".
+Definition fp_fstr (t : list N) : list N := t.
+Definition fp_fzero (t : list N) : bool := str_eqb t (s2l "0.0").
+Definition fp_numeq (a b : list N) : bool := str_eqb a b.
+Definition fp_fhex (t : list N) : option (list N) := match py_float_dec t with Some _ => Some t | None => None end.
+Definition fp_it (name unit : string) (v : hval) (d : string) : hitem :=
+  mkitem (s2l name) (s2l name) (s2l unit) v (s2l d).
+Definition fp_idx : list cell := [CNum (s2l "1.0"); CNum (s2l "2.0"); CNum (s2l "3.0")].
+Definition fp_las : las :=
+  mklas (mksect [fp_it "VERS" "" (VFloat (s2l "2.0")) "v"; fp_it "WRAP" "" (VStr (s2l "NO")) "w"] false)
+        (mksect [fp_it "STRT" "M" (VFloat (s2l "1.0")) ""; fp_it "STOP" "M" (VFloat (s2l "3.0")) "";
+                 fp_it "STEP" "M" (VFloat (s2l "1.0")) ""; fp_it "NULL" "" (VFloat (s2l "-999.25")) "";
+                 fp_it "COMP" "" (VStr (s2l "ANY OIL CO.")) "company"] false)
+        (mksect [fp_it "DEPT" "M" (VStr []) "depth"; fp_it "GR" "API" (VStr []) "gamma";
+                 fp_it "RHOB" "G/C3" (VStr []) "density"] false)
+        (mksect [fp_it "BHT" "DEGC" (VFloat (s2l "35.5")) "temp"] false)
+        (s2l "a note") []
+        [fp_idx; [CNum (s2l "5"); CNaN; CNum (s2l "7")]; [CNum (s2l "2.25"); CNum (s2l "2.5"); CNaN]] false.
+Definition fp_m : mlas := mkmlas fp_las (Some fp_idx).
+Definition fp_ro : ropts := mkropts false CasePreserve true true false.
+(* wrapped at 20 columns, auto field width, blank spacers, default headers *)
+Definition fp_o1 : wopts :=
+  mkwopts None (Some true) (s2l "%.5f") [] LAuto (s2l " ") (s2l " ") 20 60 (s2l "~ASCII") false.
+(* wrapped at 79 columns, another fmt overridden column by column, fixed field width 12, no
+   lhs spacer, a TAB spacer, header width 40, "~A", mnemonics in the ~A line *)
+Definition fp_o2 : wopts :=
+  mkwopts None (Some true) (s2l "%.3f") [(0%nat, s2l "%.5f"); (1%nat, s2l "%.5f"); (2%nat, s2l "%.5f")]
+          (LFixed 12) [] [9] 79 40 (s2l "~A") true.
+(* as fp_o2 but NOT wrapped *)
+Definition fp_o3 : wopts :=
+  mkwopts None (Some false) (s2l "%.3f") [(0%nat, s2l "%.5f"); (1%nat, s2l "%.5f"); (2%nat, s2l "%.5f")]
+          (LFixed 12) [] [9] 79 40 (s2l "~A") true.
+(* version 1.2, wrap left to the file *)
+Definition fp_o4 : wopts :=
+  mkwopts (Some W12) None (s2l "%.5f") [] LNone1 [] (s2l "  ") 79 30 (s2l "~Ascii data") false.
+Notation fp_write := (write fp_fmtv fp_fmt_diff fp_fmt_pi fp_fstr fp_fzero fp_numeq).
+Definition fp_text (o : wopts) : list N := match fp_write o fp_m with WOk t _ => t | WErr _ => [] end.
+Definition fp_hs (o : wopts) : hdr_sections :=
+  match write_sections fp_fmtv fp_fmt_diff fp_fstr fp_fzero fp_numeq (wo_version o) (wo_wrap o) (col_fmt o 0%nat) fp_m with
+  | Some hs => hs
+  | None => mkhs false V20 [] [] [] [] [] empty_las
+  end.
+Notation fp_read := (read fp_fhex fp_fstr fp_numeq fp_ro).
+Definition fp_nt : list N := s2l "-999.25".
+
+Lemma fp_formats : forall o o', In o [fp_o1; fp_o2; fp_o3; fp_o4] -> In o' [fp_o1; fp_o2; fp_o3; fp_o4] ->
+  same_formats 3 o o'.
+Proof.
+  intros o o' Ho Ho' j Hj. cbn [In] in Ho, Ho'.
+  destruct j as [|[|[|j]]]; [| | |lia];
+    (destruct Ho as [<-|[<-|[<-|[<-|[]]]]]; destruct Ho' as [<-|[<-|[<-|[<-|[]]]]]; reflexivity).
+Qed.
+
+(* the hypotheses of the three theorems hold for the four option records *)
+Example C12_ex_file_domain : forall o, In o [fp_o1; fp_o2; fp_o3; fp_o4] ->
+  (exists t m', fp_write o fp_m = WOk t m' /\ t = fp_text o) /\
+  write_sections fp_fmtv fp_fmt_diff fp_fstr fp_fzero fp_numeq (wo_version o) (wo_wrap o) (col_fmt o 0%nat) fp_m = Some (fp_hs o) /\
+  las_null_text fp_fstr (hs_las (fp_hs o)) = Some fp_nt /\
+  file_hypsb fp_fmtv fp_fmt_pi fp_fstr fp_fhex fp_ro o (fp_hs o) fp_nt = true /\
+  List.length (s_items (l_curves (hs_las (fp_hs o)))) = 3%nat /\
+  List.length (filter (in_class (o_mcase fp_ro) (s2l "NULL")) (s_items (l_well (hs_las (fp_hs o))))) = 1%nat.
+Proof.
+  intros o Ho. cbn [In] in Ho.
+  destruct Ho as [<-|[<-|[<-|[<-|[]]]]]; (split; [eexists _, _; split; vm_compute; reflexivity|]);
+    vm_compute; repeat split; reflexivity.
+Qed.
+
+Example C12_ex_options_differ :
+  same_content_options 3 fp_o1 fp_o2 /\ fp_hs fp_o1 = fp_hs fp_o2 /\
+  wo_fmt fp_o1 <> wo_fmt fp_o2 /\ wo_len_numeric_field fp_o1 <> wo_len_numeric_field fp_o2 /\
+  wo_lhs_spacer fp_o1 <> wo_lhs_spacer fp_o2 /\ wo_spacer fp_o1 <> wo_spacer fp_o2 /\
+  wo_data_width fp_o1 <> wo_data_width fp_o2 /\ wo_header_width fp_o1 <> wo_header_width fp_o2 /\
+  wo_data_section_header fp_o1 <> wo_data_section_header fp_o2 /\
+  wo_mnemonics_header fp_o1 <> wo_mnemonics_header fp_o2 /\
+  fp_text fp_o1 <> fp_text fp_o2 /\
+  (* the data lines really are wrapped differently: two lines per depth step against one *)
+  (List.length (lines_keep (fp_text fp_o1)) > List.length (lines_keep (fp_text fp_o2)))%nat.
+Proof.
+  split; [split; [reflexivity|split; [reflexivity|apply fp_formats; cbn [In]; tauto]]|].
+  split; [vm_compute; reflexivity|].
+  repeat (split; [vm_compute; discriminate|]). vm_compute. repeat constructor.
+Qed.
+
+(* the main theorem applied to fp_m, fp_o1, fp_o2 *)
+Example C12_ex_file_presentation :
+  exists l1 l2,
+    fp_read (fp_text fp_o1) = ROk l1 /\ fp_read (fp_text fp_o2) = ROk l2 /\
+    l_version l1 = l_version l2 /\ l_well l1 = l_well l2 /\ l_curves l1 = l_curves l2 /\
+    l_params l1 = l_params l2 /\ l_other l1 = l_other l2 /\ l_custom l1 = l_custom l2 /\
+    l_data l1 = l_data l2.
+Proof.
+  destruct (C12_ex_file_domain fp_o1 (or_introl eq_refl)) as ((t1 & m1 & W1 & ->) & S1 & N1 & H1 & L1 & _).
+  destruct (C12_ex_file_domain fp_o2 (or_intror (or_introl eq_refl))) as ((t2 & m2 & W2 & ->) & S2 & N2 & H2 & _).
+  destruct C12_ex_options_differ as (Hsame & Ehs & _). rewrite <- Ehs in H2. rewrite <- L1 in Hsame.
+  remember (fp_text fp_o1) as t1 eqn:E1 in *. remember (fp_text fp_o2) as t2 eqn:E2 in *.
+  remember (fp_hs fp_o1) as hs eqn:E3 in *. clear E1 E2 E3 Ehs S2 N2 L1.
+  destruct (C12_file_presentation_independent fp_fmtv fp_fmt_diff fp_fmt_pi fp_fstr fp_fzero fp_numeq fp_fhex fp_ro
+              fp_o1 fp_o2 fp_m t1 m1 t2 m2 hs fp_nt Hsame W1 W2 S1 N1 H1 H2 eq_refl)
+    as (l1 & l2 & pn & R1 & R2 & _ & _ & _ & _ & E).
+  exists l1, l2. split; [exact R1|]. split; [exact R2|].
+  destruct E as (A & B & C & D & E & F & G & _). repeat split; assumption.
+Qed.
+
+(* wrap on (fp_o1: 20 columns) against wrap off with a TAB spacer (fp_o3) *)
+Example C12_ex_file_wrap :
+  exists l1 l3,
+    fp_read (fp_text fp_o1) = ROk l1 /\ fp_read (fp_text fp_o3) = ROk l3 /\
+    Forall2 (read_wrap_rel CasePreserve) (s_items (l_version l1)) (s_items (l_version l3)) /\
+    l_well l1 = l_well l3 /\ l_curves l1 = l_curves l3 /\ l_params l1 = l_params l3 /\
+    l_other l1 = l_other l3 /\ l_custom l1 = l_custom l3 /\ l_data l1 = l_data l3.
+Proof.
+  destruct (C12_ex_file_domain fp_o1 (or_introl eq_refl)) as ((t1 & m1 & W1 & ->) & S1 & N1 & H1 & L1 & _).
+  destruct (C12_ex_file_domain fp_o3 (or_intror (or_intror (or_introl eq_refl)))) as ((t3 & m3 & W3 & ->) & S3 & N3 & H3 & _).
+  assert (Hf : same_formats (List.length (s_items (l_curves (hs_las (fp_hs fp_o1))))) fp_o1 fp_o3)
+    by (rewrite L1; apply fp_formats; cbn [In]; tauto).
+  remember (fp_text fp_o1) as t1 eqn:E1 in *. remember (fp_text fp_o3) as t3 eqn:E2 in *.
+  remember (fp_hs fp_o1) as hs1 eqn:E3 in *. remember (fp_hs fp_o3) as hs3 eqn:E4 in *. clear E1 E2 E3 E4 L1 N3.
+  destruct (C12_file_wrap_independent fp_fmtv fp_fmt_diff fp_fmt_pi fp_fstr fp_fzero fp_numeq fp_fhex fp_ro
+              fp_o1 fp_o3 true false fp_m t1 m1 t3 m3 hs1 hs3 fp_nt eq_refl eq_refl eq_refl Hf
+              W1 W3 S1 S3 N1 H1 H3 eq_refl)
+    as (l1 & l3 & pn & R1 & R3 & _ & _ & _ & _ & _ & _ & _ & _ & _ & V & _ & E).
+  exists l1, l3. split; [exact R1|]. split; [exact R3|]. split; [exact V|].
+  destruct E as (A & B & C & D & E & F & _). repeat split; assumption.
+Qed.
+
+(* 2.0 wrapped (fp_o1) against 1.2 with wrap left to the file (fp_o4) *)
+Example C12_ex_file_options :
+  exists l1 l4,
+    fp_read (fp_text fp_o1) = ROk l1 /\ fp_read (fp_text fp_o4) = ROk l4 /\
+    map meta (s_items (l_well l1)) = map meta (s_items (l_well l4)) /\
+    map meta (s_items (l_curves l1)) = map meta (s_items (l_curves l4)) /\
+    map meta (s_items (l_params l1)) = map meta (s_items (l_params l4)) /\
+    l_other l1 = l_other l4 /\ l_custom l1 = l_custom l4 /\ l_data l1 = l_data l4.
+Proof.
+  destruct (C12_ex_file_domain fp_o1 (or_introl eq_refl)) as ((t1 & m1 & W1 & ->) & S1 & N1 & H1 & L1 & U1).
+  destruct (C12_ex_file_domain fp_o4 (or_intror (or_intror (or_intror (or_introl eq_refl))))) as ((t4 & m4 & W4 & ->) & S4 & N4 & H4 & _).
+  assert (Hf : same_formats (List.length (s_items (l_curves (hs_las (fp_hs fp_o1))))) fp_o1 fp_o4)
+    by (rewrite L1; apply fp_formats; cbn [In]; tauto).
+  assert (Hu : (List.length (filter (in_class (o_mcase fp_ro) (s2l "NULL")) (s_items (l_well (hs_las (fp_hs fp_o1))))) <= 1)%nat)
+    by (rewrite U1; apply le_n).
+  remember (fp_text fp_o1) as t1 eqn:E1 in *. remember (fp_text fp_o4) as t4 eqn:E2 in *.
+  remember (fp_hs fp_o1) as hs1 eqn:E3 in *. remember (fp_hs fp_o4) as hs4 eqn:E4 in *. clear E1 E2 E3 E4 L1 U1 N4.
+  destruct (C12_file_options_independent fp_fmtv fp_fmt_diff fp_fmt_pi fp_fstr fp_fzero fp_numeq fp_fhex fp_ro
+              fp_o1 fp_o4 fp_m t1 m1 t4 m4 hs1 hs4 fp_nt Hf W1 W4 S1 S4 N1 H1 H4 Hu eq_refl)
+    as (l1 & l4 & pn & R1 & R4 & _ & _ & _ & _ & _ & A & B & C & _ & _ & _ & D & E & F & _).
+  exists l1, l4. repeat split; assumption.
+Qed.
+
+(* the same, computed: what is read back from the four texts *)
+Example C12_ex_file_computed :
+  match fp_read (fp_text fp_o1), fp_read (fp_text fp_o2), fp_read (fp_text fp_o3), fp_read (fp_text fp_o4) with
+  | ROk l1, ROk l2, ROk l3, ROk l4 =>
+      l_data l1 = [fp_idx; [CNum (s2l "5"); CNaN; CNum (s2l "7")]; [CNum (s2l "2.25"); CNum (s2l "2.5"); CNaN]] /\
+      l_data l2 = l_data l1 /\ l_data l3 = l_data l1 /\ l_data l4 = l_data l1 /\
+      l_version l2 = l_version l1 /\ l_well l2 = l_well l1 /\ l_well l3 = l_well l1 /\
+      map meta (s_items (l_well l4)) = map meta (s_items (l_well l1)) /\
+      map (fun it => (l2s (i_orig it), i_value it)) (s_items (l_version l1))
+        = [("VERS"%string, VFloat (s2l "2.0")); ("WRAP"%string, VStr (s2l "YES"))] /\
+      map (fun it => (l2s (i_orig it), i_value it)) (s_items (l_version l3))
+        = [("VERS"%string, VFloat (s2l "2.0")); ("WRAP"%string, VStr (s2l "NO"))] /\
+      map (fun it => (l2s (i_orig it), i_value it)) (s_items (l_version l4))
+        = [("VERS"%string, VFloat (s2l "1.2")); ("WRAP"%string, VStr (s2l "NO"))]
+  | _, _, _, _ => False
+  end.
+Proof. vm_compute. repeat split; reflexivity. Qed.
+
+Print Assumptions C12_same_content_options_unfold.
+Print Assumptions C12_same_formats_unfold.
+Print Assumptions C12_wrap_rel_unfold.
+Print Assumptions C12_read_wrap_rel_unfold.
+Print Assumptions C12_same_but_version_unfold.
+Print Assumptions C12_file_presentation_independent.
+Print Assumptions C12_file_wrap_independent.
+Print Assumptions C12_file_options_independent.
+Print Assumptions C12_written_state_but_version.
